@@ -106,7 +106,13 @@ def check_case(case):
   # the text may be parsed while some config scope is active: that scope has nothing to do with
   # the scope a reference runs under later ("the scope active at the consuming call")
   with gin.config_scope(case.get('parse_scope') or None):
-    gin.parse_config('\n'.join(lines))
+    if case.get('skip_unknown'):
+      # every name in the text is known: skip_unknown, in any form, changes nothing
+      gin.parse_config('\n'.join(lines), skip_unknown={1: True, 2: ['nosuch'], 3: ('cons',)}[
+          case['skip_unknown']])
+      labels.add('parsed-with-skip_unknown')
+    else:
+      gin.parse_config('\n'.join(lines))
   if case.get('parse_scope'):
     labels.add('parsed-inside-a-scope')
   ambient = case['ambient']
@@ -331,6 +337,7 @@ def strategy(draw):
                                  if calls and draw(st.integers(0, 3)) == 0 else None),
                   'mutate': draw(st.booleans()) or draw(st.booleans())})
   return {
+      'skip_unknown': draw(st.sampled_from([0, 0, 1, 2, 3])),
       'consumer_kind': draw(st.sampled_from(['function', 'function', 'class_init'])),
       'consumer_api': draw(st.sampled_from(['configurable', 'register', 'external'])),
       'producer_apis': [draw(st.sampled_from(['configurable', 'register', 'external']))
